@@ -56,6 +56,7 @@ var _ uuid.UUID
 // sift-down: edges whose parent is below i0 are fine on entry; on exit every edge with parent >= i0 is fine.
 //@ func container/heap.down
 //@ props C19
+//@ ensures [no-new-items] forall it *PriorityQueueItem :: allocated(it) ==> old(allocated(it))
 //@ trust floatorder
 //@ requires [dyn] hdyn(h)
 //@ requires [range] 0 <= i0 && i0 <= n && n <= len(qs(h))
@@ -78,6 +79,7 @@ var _ uuid.UUID
 // sift-up: every edge except (j, parent(j)) is fine, and the children of j are not less than j's parent.
 //@ func container/heap.up
 //@ props C19
+//@ ensures [no-new-items] forall it *PriorityQueueItem :: allocated(it) ==> old(allocated(it))
 //@ trust floatorder
 //@ requires [dyn] hdyn(h)
 //@ requires [range] 0 <= j && j < len(qs(h))
@@ -98,6 +100,7 @@ var _ uuid.UUID
 
 //@ func container/heap.Init
 //@ props C19
+//@ ensures [no-new-items] forall it *PriorityQueueItem :: allocated(it) ==> old(allocated(it))
 //@ requires [dyn] hdyn(h)
 //@ requires [items] itemsOK(h, len(qs(h)))
 //@ ensures [heap] wfh(h)
@@ -109,9 +112,11 @@ var _ uuid.UUID
 //@ invariant [items] itemsOK(h, len(qs(h)))
 //@ invariant [below] forall c int :: 0 < c && c < len(qs(h)) && (c-1)/2 > i ==> edgeOK(h, c)
 //@ invariant [outside] forall k int :: k >= len(qs(h)) ==> qs(h)[k] == old(qs(h)[k])
+//@ invariant [no-new-items] forall it *PriorityQueueItem :: allocated(it) ==> old(allocated(it))
 
 //@ func container/heap.Push
 //@ props C19
+//@ ensures [no-new-items] forall it *PriorityQueueItem :: allocated(it) ==> old(allocated(it))
 //@ requires [wf] wfh(h)
 //@ requires [item] istype(x, *PriorityQueueItem) && x.pay != 0 && !isnan(x.(*PriorityQueueItem).priority) && qP(x.(*PriorityQueueItem))
 //@ ensures [wf] wfh(h)
@@ -122,6 +127,7 @@ var _ uuid.UUID
 
 //@ func container/heap.Pop
 //@ props C19
+//@ ensures [no-new-items] forall it *PriorityQueueItem :: allocated(it) ==> old(allocated(it))
 //@ requires [wf] wfh(h)
 //@ requires [nonempty] len(qs(h)) > 0
 //@ ensures [wf] wfh(h)
@@ -143,11 +149,13 @@ var _ uuid.UUID
 //@ func (*utils.priorityQueue).Len
 //@ props C19
 //@ pure
+//@ noalloc
 //@ requires [dyn] hdyn(pq.queue)
 //@ ensures [len] ret == len(qs(pq.queue))
 
 //@ func (*utils.priorityQueue).Push
 //@ props C19
+//@ ensures [no-new-items] forall it *PriorityQueueItem :: allocated(it) ==> old(allocated(it))
 //@ requires [wf] wfpq(pq)
 //@ requires [item] item != nil && !isnan(item.priority) && qP(item)
 //@ requires [nonneg] !(item.priority < 0)
@@ -158,6 +166,7 @@ var _ uuid.UUID
 
 //@ func (*utils.priorityQueue).Pop
 //@ props C19
+//@ ensures [no-new-items] forall it *PriorityQueueItem :: allocated(it) ==> old(allocated(it))
 //@ trust floatorder
 //@ requires [wf] wfpq(pq)
 //@ requires [nonempty] len(qs(pq.queue)) > 0
@@ -171,6 +180,7 @@ var _ uuid.UUID
 //@ func (*utils.priorityQueue).Peek
 //@ props C19
 //@ pure
+//@ noalloc
 //@ requires [wf] wfpq(pq)
 //@ requires [nonempty] len(qs(pq.queue)) > 0
 //@ ensures [root] ret == qs(pq.queue)[0] && ret != nil && qP(ret)
@@ -178,12 +188,14 @@ var _ uuid.UUID
 //@ func (*utils.priorityQueue).ToSlice
 //@ props C19
 //@ pure
+//@ noalloc
 //@ requires [dyn] hdyn(pq.queue)
 //@ ensures [alias] ret == qs(pq.queue)
 
 // Reverse, from the statement: same items, opposite order, and the source keeps its contents and ordering.
 //@ func (*utils.priorityQueue).Reverse
 //@ props C19
+//@ ensures [no-new-items] forall it *PriorityQueueItem :: allocated(it) ==> old(allocated(it))
 //@ requires [wf] wfpq(pq)
 //@ ensures [result-wf] istype(ret, *priorityQueue) && ret.pay != 0 && wfpq(ret.(*priorityQueue))
 //@ ensures [opposite] isMin(ret.(*priorityQueue).queue) == isMax(pq.queue)
@@ -196,6 +208,7 @@ var _ uuid.UUID
 
 //@ func utils.initializePriorityQueue
 //@ props C19
+//@ ensures [no-new-items] forall it *PriorityQueueItem :: allocated(it) ==> old(allocated(it))
 //@ requires [dyn] hdyn(queue)
 //@ requires [items] itemsOK(queue, len(qs(queue)))
 //@ requires [pushable] pushable(items)
@@ -214,9 +227,11 @@ var _ uuid.UUID
 //@ invariant [len] len(qs(queue)) == old(len(qs(queue))) + rangeindex + 1
 //@ invariant [noitems] len(items) == 0 ==> qs(queue) == old(qs(queue)) && forall k int :: k >= len(qs(queue)) ==> qs(queue)[k] == old(qs(queue)[k])
 //@ invariant [fresh-or-inplace] qs(queue).ref == old(qs(queue).ref) || fresh(qs(queue))
+//@ invariant [no-new-items] forall it *PriorityQueueItem :: allocated(it) ==> old(allocated(it))
 
 //@ func utils.NewMinPriorityQueue
 //@ props C19
+//@ ensures [no-new-items] forall it *PriorityQueueItem :: allocated(it) ==> old(allocated(it))
 //@ requires [pushable] pushable(items)
 //@ ensures [result] istype(ret, *priorityQueue) && ret.pay != 0 && fresh(ret.(*priorityQueue)) && wfpq(ret.(*priorityQueue))
 //@ ensures [kind] isMin(ret.(*priorityQueue).queue)
@@ -226,6 +241,7 @@ var _ uuid.UUID
 
 //@ func utils.NewMaxPriorityQueue
 //@ props C19
+//@ ensures [no-new-items] forall it *PriorityQueueItem :: allocated(it) ==> old(allocated(it))
 //@ requires [pushable] pushable(items)
 //@ ensures [result] istype(ret, *priorityQueue) && ret.pay != 0 && fresh(ret.(*priorityQueue)) && wfpq(ret.(*priorityQueue))
 //@ ensures [kind] isMax(ret.(*priorityQueue).queue)
